@@ -440,8 +440,13 @@ func (ex *Exec) runPath(cs caseSpec) {
 	ex.ghostEntry = ghostEntry
 	// assume preconditions
 	pre := &SpecCtx{ex: ex, vars: ex.specVars, old: ex.entry, pkg: ex.fn.Pkg, assume: true}
+	ex.preFalse = false
 	for _, rq := range fc.Requires {
-		ex.st.addFact(pre.term(rq.Expr), "requires")
+		t := pre.term(rq.Expr)
+		if t.IsFalse() {
+			ex.preFalse = true // this aliasing/nil/length case is excluded by the precondition itself
+		}
+		ex.st.addFact(t, "requires")
 	}
 	ex.nPreFacts = len(ex.st.facts)
 	usectx := &SpecCtx{ex: ex, vars: ex.specVars, old: ex.entry, pkg: ex.fn.Pkg}
@@ -516,6 +521,16 @@ func (ex *Exec) modifiedSet() map[*Obj]map[int]bool {
 
 func (ex *Exec) atReturn(results []Value) {
 	fc := ex.fc
+	if ex.coverCount[ex.pattern] < 3 && !ex.preFalse && !ex.mode.Staged {
+		// vacuity guard: precondition, lemma hints and callee postconditions along some complete path are consistent
+		if ex.coverCount == nil {
+			ex.coverCount = map[string]int{}
+		}
+		ex.coverCount[ex.pattern]++
+		o := ex.oblige("cover", "path-feasible", BoolC(false), "some path from entry to return is feasible (precondition, hints and callee contracts are jointly satisfiable)")
+		o.Cover = true
+		o.NoSlice = true
+	}
 	ex.results = results
 	vars := map[string]Value{}
 	for k, v := range ex.specVars {
